@@ -232,7 +232,7 @@ def _regex_tables(pattern: str):
 
 def r07e(ctx):
     repo = ctx.repo
-    ctx.rule("R07e", "accepted table names and named-range names are exactly those of the spec tables", floor=5)
+    ctx.rule("R07e", "accepted table names and named-range names are exactly those of the spec tables, checked on the value that is stored", floor=7)
     m = repo.module("table")
     node = m.assigns.get("_RE_TABLE_NAME")
     pat = repo.fold(node.args[0], m) if isinstance(node, ast.Call) and node.args else UNKNOWN
@@ -263,6 +263,26 @@ def r07e(ctx):
     ctx.instance("R07e", f"{f.file}:{f.ident}", "type check, strip, empty check, regex search over the whole name", ok=ok, nontrivial=True)
     if not ok:
         ctx.report("R07e", f, f.node, "_table_name_check steps", "_table_name_check no longer checks type, strips, rejects empty names and searches the regex")
+    # the value that is validated is the value that is returned (and stored): every test on the name — the regex search and the emptiness
+    # test — must see the same definition of the name as the `return`; checking before the strip lets `"a' "` through as `"a'"`
+    from ..paths import reaching_defs
+    cfgf = cfg_of(f)
+    rets = [n for n in walk_no_nested(f.node) if isinstance(n, ast.Return) and isinstance(n.value, ast.Name)]
+    if rets:
+        rv = rets[0].value.id
+        rd = reaching_defs(cfgf, rv)
+        at_ret = rd.get(node_of(cfgf, rets[0]).id, frozenset())
+        tests = [n for n in searches if n.args and isinstance(n.args[0], ast.Name) and n.args[0].id == rv]
+        tests += [n.test for n in walk_no_nested(f.node) if isinstance(n, ast.If) and isinstance(n.test, ast.UnaryOp) and isinstance(n.test.op, ast.Not)
+                  and isinstance(n.test.operand, ast.Name) and n.test.operand.id == rv]
+        for t in tests:
+            at_t = rd.get(node_of(cfgf, t).id, frozenset())
+            okv = at_t == at_ret
+            ctx.instance("R07e", f"{f.file}:{f.ident}", f"`{norm(t, 40)}` tests the value that is returned", ok=okv, nontrivial=True, line=t.lineno)
+            if not okv:
+                ctx.report("R07e", f, t, f"`{norm(t, 40)}` tests another version of `{rv}` than the one returned",
+                           f"_table_name_check validates `{rv}` before it is normalised: the apostrophe/character rules are applied to the raw argument, but the stripped "
+                           f"string is what becomes the table name — a name like \"a' \" passes and is stored as \"a'\", which office applications refuse")
     users = [q for q in ("Table.name", "NamedRange.set_table_name") if "_table_name_check" in ast.unparse((repo.find_func(q, "setter") or repo.func(q)).node)]
     ctx.instance("R07e", f"{m.relpath}", f"name check applied by {users}", ok=len(users) == 2)
     if len(users) != 2:
@@ -385,6 +405,8 @@ _T = "src/odfdo/table.py"
 _R = "src/odfdo/row.py"
 _C = "src/odfdo/cell.py"
 SEEDS = [
+    Seed("table name checked before it is stripped", "fault", _T, '    name = name.strip()\n    if not name:\n        raise ValueError("Empty name not allowed.")\n    if match := _RE_TABLE_NAME.search(name):\n        raise ValueError(f"Character {match.group()!r} not allowed.")\n    return name', '    if match := _RE_TABLE_NAME.search(name):\n        raise ValueError(f"Character {match.group()!r} not allowed.")\n    name = name.strip()\n    if not name:\n        raise ValueError("Empty name not allowed.")\n    return name', "R07e"),
+    Seed("table name: regex test before the emptiness test, both after the strip", "neutral", _T, '    name = name.strip()\n    if not name:\n        raise ValueError("Empty name not allowed.")\n    if match := _RE_TABLE_NAME.search(name):\n        raise ValueError(f"Character {match.group()!r} not allowed.")\n    return name', '    name = name.strip()\n    if match := _RE_TABLE_NAME.search(name):\n        raise ValueError(f"Character {match.group()!r} not allowed.")\n    if not name:\n        raise ValueError("Empty name not allowed.")\n    return name'),
     Seed("first column appended after the last child", "fault", _T, "        if not self._cmap:\n            position = 0\n", "        if not self._cmap:\n            position = len(self.children)\n", "R07f"),
     Seed("column appended two places after the last column", "fault", _T, "            position = self.index(last_column) + 1\n", "            position = self.index(last_column) + 2\n", "R07f"),
     Seed("first row declares its columns at the end", "fault", _T, "            self.insert(Column(repeated=repeated), position=0)", "            self.insert(Column(repeated=repeated), position=len(self.children))", "R07f"),
